@@ -66,6 +66,16 @@ pub fn alphabet(c: usize) -> Vec<Op> {
     out
 }
 
+/// The alphabet plus two `write_vectored` calls (the trait's default forwards the first non-empty
+/// slice to `write`; an override must keep "the count returned is a prefix of the concatenation").
+pub fn alphabet_v(c: usize) -> Vec<Op> {
+    let mut v = alphabet(c);
+    let c = c as u32;
+    v.push(Op::WriteV(vec![c.saturating_sub(1).max(1), 2, c + 1]));
+    v.push(Op::WriteV(vec![0, 1, 3 * c]));
+    v
+}
+
 pub fn seq_from_index(alpha: &[Op], len: usize, mut idx: u64) -> Vec<Op> {
     let k = alpha.len() as u64;
     (0..len)
@@ -85,6 +95,7 @@ fn op_sig(o: &Op) -> &'static str {
     match o {
         Op::Write(_) => "write",
         Op::WriteAll(_) => "write_all",
+        Op::WriteV(_) => "write_vectored",
         Op::Flush => "flush",
         Op::PollOnce | Op::PollAll => "poll",
         Op::Abort => "abort",
@@ -113,7 +124,7 @@ pub fn c08_judge(c: &StreamCase, o: &StreamObs, sink: &mut Sink) -> (Verdict, Op
     for (i, s) in o.steps.iter().enumerate() {
         match (&s.op, &s.res) {
             (_, Res::Panic(p)) => return (Verdict::viol(format!("panic|{}@{}", op_sig(&s.op), norm_loc(p)), format!("step {} {:?} panicked: {}", i, s.op, p)), None),
-            (Op::Write(n), Res::Write { res, .. }) => match res {
+            (Op::Write(_) | Op::WriteV(_), Res::Write { offered: n, res }) => match res {
                 Ok(m) => {
                     if (*n > 0 && (*m == 0 || *m > *n as usize)) || (*n == 0 && *m != 0) {
                         return (Verdict::viol(format!("write-count|{}", if *m == 0 { "zero" } else { "too-many" }), format!("step {}: write of {} bytes returned Ok({})", i, n, m)), None);
@@ -189,6 +200,7 @@ pub fn c08_judge(c: &StreamCase, o: &StreamObs, sink: &mut Sink) -> (Verdict, Op
 
 fn n_of(o: &Op) -> u32 {
     match o {
+        Op::WriteV(ns) => ns.iter().sum(),
         Op::Write(n) | Op::WriteAll(n) => *n,
         _ => 0,
     }
@@ -206,7 +218,7 @@ fn seq_space(ctx: &Ctx, max_len_q: usize, max_len_t: usize) -> SeqSpace {
     let mut blocks = Vec::new();
     let max_len = if ctx.leg.slow() { 2 } else if thorough(ctx) { max_len_t } else { max_len_q };
     for &c in &SMALL_CHUNKS {
-        let a = alphabet(c).len();
+        let a = alphabet_v(c).len();
         for len in 1..=max_len {
             for first in 0..a {
                 blocks.push((c, len, first));
@@ -224,7 +236,7 @@ fn seq_space(ctx: &Ctx, max_len_q: usize, max_len_t: usize) -> SeqSpace {
 
 fn run_seq_block(ctx: &Ctx, blk: (usize, usize, usize), tag: u64, sink: &mut Sink, mk: &dyn Fn(usize, Vec<Op>, &mut Rng) -> Vec<StreamCase>, judge: &Judge) {
     let (c, len, first) = blk;
-    let alpha = alphabet(c);
+    let alpha = alphabet_v(c);
     let mut rng = Rng::from_parts(ctx.seed, &[tag, c as u64, len as u64, first as u64]);
     if len > 0 {
         let rest = len - 1;
@@ -344,7 +356,7 @@ impl Prop for C08 {
         "exploration"
     }
     fn rule(&self, ctx: &Ctx) -> String {
-        format!("identity-coded streaming bodies. Alphabet per chunk size c: write(0,1,c-1,c,c+1,2c,3c), write_all(1,c+1,3c), flush, poll-once, poll-until-pending; every sequence ends with drop + drain + 2 extra polls. Exhaustive: all sequences of length 1..={} for c in {{1,2,3,4,7}}, both request representations alternating; random: sequences of 10..200 ops for c in {{1,2,3,4,7,4096,65536}}; backlog histories: 1-40 MiB queued unread, then small writes + flush + drain. Payload byte k is a position hash. Non-trivial = distinct sequence that accepted >= 1 byte and whose frames, write counts, flush availability and clean end were compared with the sequential model",
+        format!("identity-coded streaming bodies. Alphabet per chunk size c: write(0,1,c-1,c,c+1,2c,3c), write_all(1,c+1,3c), write_vectored([c-1,2,c+1]), write_vectored([0,1,3c]), flush, poll-once, poll-until-pending; every sequence ends with drop + drain + 2 extra polls. Exhaustive: all sequences of length 1..={} for c in {{1,2,3,4,7}}, both request representations alternating; random: sequences of 10..200 ops for c in {{1,2,3,4,7,4096,65536}}; backlog histories: 1-40 MiB queued unread, then small writes + flush + drain. Payload byte k is a position hash. Non-trivial = distinct sequence that accepted >= 1 byte and whose frames, write counts, flush availability and clean end were compared with the sequential model",
             if thorough(ctx) { 5 } else { 4 })
     }
     fn n_blocks(&self, ctx: &Ctx) -> usize {
@@ -411,7 +423,7 @@ pub fn c09_judge(c: &StreamCase, o: &StreamObs, sink: &mut Sink) -> (Verdict, Op
     for (i, s) in o.steps.iter().enumerate() {
         match (&s.op, &s.res) {
             (_, Res::Panic(p)) => return (Verdict::viol(format!("panic|{}@{}", op_sig(&s.op), norm_loc(p)), format!("step {} {:?} panicked: {}", i, s.op, p)), None),
-            (Op::Write(n), Res::Write { res, .. }) => match res {
+            (Op::Write(_) | Op::WriteV(_), Res::Write { offered: n, res }) => match res {
                 Ok(m) => {
                     if *m > *n as usize {
                         return (Verdict::viol("write-count", format!("write({}) returned Ok({})", n, m)), None);
@@ -516,6 +528,10 @@ pub fn c09_block(b: usize, sink: &mut Sink, judge: &Judge) {
         for i in 0..n {
             let big = if ctx.leg.slow() { 300 } else { *rng.pick(&[1000u32, 70_000, 200_000, 32_767, 32_768, 32_769, 65_535, 65_536, 65_537, 98_304]) };
             let mut ops = vec![Op::Flush, Op::PollAll, Op::WriteAll(big), Op::Flush, Op::PollAll, Op::Write(1), Op::WriteAll(rng.range(0, 5000) as u32), Op::PollOnce, Op::Flush, Op::Flush, Op::PollAll, Op::WriteAll(big / 3)];
+            if i % 3 == 2 {
+                // one vectored write whose first slice is large (the compressor's output buffer fills)
+                ops.insert(2, Op::WriteV(vec![big, 1000, 0, 7]));
+            }
             if i % 2 == 1 {
                 ops.rotate_left(rng.below(6) as usize);
             }
@@ -584,7 +600,6 @@ fn vary_has_accept_encoding(o: &StreamObs) -> bool {
 }
 
 fn c17_run(n: &NegCase, sink: &mut Sink) -> (Verdict, Option<u64>, Value) {
-    let plain = payload(Payload::Text, 0, 300);
     let mut hm = http::HeaderMap::new();
     if let Some(ae) = &n.accept_encoding {
         match http::HeaderValue::from_bytes(ae) {
@@ -600,7 +615,7 @@ fn c17_run(n: &NegCase, sink: &mut Sink) -> (Verdict, Option<u64>, Value) {
     let mut first_hdrs: Option<Vec<(String, Vec<u8>)>> = None;
     for method in ["GET", "POST", "HEAD"] {
         for via_parts in [false, true] {
-            let case = StreamCase { method: method.into(), accept_encoding: n.accept_encoding.clone(), chunk: n.chunk, gzip_level: n.level, via_parts, payload: Payload::Text, ops: vec![Op::WriteAll(300)], extra_polls: 1, fresh_wakers: false };
+            let case = StreamCase { method: method.into(), accept_encoding: n.accept_encoding.clone(), chunk: n.chunk, gzip_level: n.level, via_parts, payload: Payload::Text, ops: vec![Op::WriteAll(300), Op::WriteV(vec![n.chunk as u32 + 1, 40, 2 * n.chunk as u32]), Op::WriteAll(5)], extra_polls: 1, fresh_wakers: false };
             let o = match run_stream(&case) {
                 Some(o) => o,
                 None => return (Verdict::DontCare("inexpressible".into()), None, json!(null)),
@@ -641,17 +656,22 @@ fn c17_run(n: &NegCase, sink: &mut Sink) -> (Verdict, Option<u64>, Value) {
                 }
                 continue;
             }
+            // what the writer reported as accepted (write_all, one vectored write, write_all)
+            let plain = &o.accepted;
+            if plain.len() < 300 {
+                return fail("write-refused".into(), format!("{}: only {} bytes were accepted by a live writer", tag, plain.len()), &rendered);
+            }
             let ended = o.all_polls().any(|p| p.ev == Ev::End);
             if !ended {
                 return fail(format!("no-clean-end|gzip={}", has_gzip), format!("{}: body did not end cleanly", tag), &rendered);
             }
             if has_gzip {
                 match gz::parse_member(&o.delivered) {
-                    Ok(p) if p == plain => sink.count("gzip_bodies_verified"),
+                    Ok(p) if p == *plain => sink.count("gzip_bodies_verified"),
                     Ok(_) => return fail("gzip-body-wrong-bytes".into(), format!("{}: gzip member decodes to other bytes", tag), &rendered),
                     Err(e) => return fail("header-says-gzip-body-is-not".into(), format!("{}: Content-Encoding: gzip but the body is not a gzip member: {}", tag, e), &rendered),
                 }
-            } else if o.delivered != plain {
+            } else if o.delivered != *plain {
                 return fail(format!("identity-body-not-verbatim|{}", if o.delivered.starts_with(&[0x1f, 0x8b]) { "is-gzip" } else { "other" }), format!("{}: no Content-Encoding but body ({} bytes) is not the {} bytes written", tag, o.delivered.len(), plain.len()), &rendered);
             } else {
                 sink.count("identity_bodies_verified");
@@ -741,7 +761,7 @@ impl Prop for C17 {
         "exploration"
     }
     fn rule(&self, _: &Ctx) -> String {
-        "full product: Accept-Encoding {absent, empty, invalid, all 66 single elements (6 codings x 11 weights), all 225 pairs over {gzip, identity, *} x 5 weights} x gzip level {default, 0..9} x chunk size {1, 7, 4096}; each configuration is built for GET, POST and HEAD, as Request and as Parts (6 builds), 300 bytes written, body drained; plus 70 / 300 / 1000 bodies alive at the same time, each then written, drained and verified. Non-trivial = distinct configuration whose Vary / Content-Encoding were compared with should_gzip && level > 0, whose body coding was verified against the header (gzip member parser / verbatim bytes), and whose HEAD/Parts variants were compared".into()
+        "full product: Accept-Encoding {absent, empty, invalid, all 66 single elements (6 codings x 11 weights), all 225 pairs over {gzip, identity, *} x 5 weights} x gzip level {default, 0..9} x chunk size {1, 7, 4096}; each configuration is built for GET, POST and HEAD, as Request and as Parts (6 builds), write_all(300) + one write_vectored of three slices + write_all(5), body drained; plus 70 / 300 / 1000 bodies alive at the same time, each then written, drained and verified. Non-trivial = distinct configuration whose Vary / Content-Encoding were compared with should_gzip && level > 0, whose body coding was verified against the header (gzip member parser / verbatim bytes), and whose HEAD/Parts variants were compared".into()
     }
     fn n_blocks(&self, ctx: &Ctx) -> usize {
         if ctx.leg.slow() { 4 } else { 11 * 3 + 3 }
